@@ -332,12 +332,79 @@ Fixpoint dup_member (t : ty) : bool :=
   | TStruct _ fs => has_dup (map (fun f => clean_name (fst f)) fs) || existsb (fun f => dup_member (snd f)) fs
   end.
 
-Definition type_panics (c : sig_cfg) (t : ty) : bool :=
-  (c_key_panic c && bad_key t) || (c_dup_panic c && dup_member t).
+(* Type() as the Go code evaluates it; None = panic.
+   Pinned: reflect.MapOf(key.Type(), value.Type()) panics on a key type Go cannot compare;
+   reflect.StructOf panics on two fields of one name.
+   Repaired (design/C09.fix.*.diff): MapType.Type() answers the placeholder of the unknown type
+   (pointer to error) when the key type is not comparable, without asking the value type;
+   StructType.Type() renames a member whose cleaned name is taken: N_0, N_1, ... *)
+Fixpoint shape_comparable (s : shape) : bool :=
+  match s with
+  | KSlice _ | KMap _ _ => false
+  | KStruct fs => forallb (fun f => shape_comparable (snd f)) fs
+  | _ => true
+  end.
 
-(* Type(): None = panic *)
-Definition go_type_result (c : sig_cfg) (t : ty) : option shape :=
-  if type_panics c t then None else Some (go_type t).
+Fixpoint pick_name (fuel j : nat) (base : string) (seen : list string) (name : string) : string :=
+  if existsb (String.eqb name) seen then
+    match fuel with
+    | O => name
+    | S f => pick_name f (S j) base seen (base ++ "_" ++ nat_to_string j)
+    end
+  else name.
+Fixpoint dedup_names (seen l : list string) : list string :=
+  match l with
+  | [] => []
+  | b :: r => let n := pick_name (S (List.length seen)) 0 b seen b in n :: dedup_names (n :: seen) r
+  end.
+
+Section GoTypeRes.
+  Variable c : sig_cfg.
+  Variable res : ty -> option shape.
+  Fixpoint res_list (l : list ty) : option (list shape) :=
+    match l with
+    | [] => Some []
+    | t :: r => match res t, res_list r with Some a, Some b => Some (a :: b) | _, _ => None end
+    end.
+  Fixpoint res_fields (l : list (string * ty)) : option (list shape) :=
+    match l with
+    | [] => Some []
+    | f :: r => match res (snd f), res_fields r with Some a, Some b => Some (a :: b) | _, _ => None end
+    end.
+End GoTypeRes.
+
+Fixpoint go_type_result (c : sig_cfg) (t : ty) : option shape :=
+  match t with
+  | TS s => Some (scalar_shape s)
+  | TList e => match go_type_result c e with Some a => Some (KSlice a) | None => None end
+  | TMap k v =>
+      match go_type_result c k with
+      | None => None
+      | Some ks =>
+          if c_key_panic c then
+            match go_type_result c v with
+            | Some vs => if shape_comparable ks then Some (KMap ks vs) else None
+            | None => None
+            end
+          else if shape_comparable ks then
+            match go_type_result c v with Some vs => Some (KMap ks vs) | None => None end
+          else Some KPtrError
+      end
+  | TTuple ts =>
+      match res_list (go_type_result c) ts with
+      | Some l => Some (KStruct (tuple_fields 0 l))
+      | None => None
+      end
+  | TStruct _ fs =>
+      match res_fields (go_type_result c) fs with
+      | Some l =>
+          let names := map (fun f => clean_name (fst f)) fs in
+          if has_dup names then
+            if c_dup_panic c then None else Some (KStruct (combine (dedup_names [] names) l))
+          else Some (KStruct (combine names l))
+      | None => None
+      end
+  end.
 
 (* ---------- consistency of the Go representation with the signature ---------- *)
 (* the signature a kind tree stands for: members in order, names dropped *)
